@@ -115,6 +115,8 @@ func (c *DriveCtx) Exec(spec *RunSpec) *Result {
 
 func (res *Result) shape() string {
 	h := sha256.New()
+	// the scenario is part of what makes a run distinct: same trace shape on another input is another case
+	fmt.Fprintf(h, "%s\n", canonJSON(J{"r": mustJSON(res.Spec.Requests), "w": mustJSON(res.Spec.World)}))
 	for _, e := range res.Sim.Log {
 		fmt.Fprintf(h, "%s|%s|%v|%s\n", e.Task, e.Kind, e.Fault, resClass(e.Res))
 	}
